@@ -69,7 +69,7 @@ func runC18(r *Run, rng *Rng, thorough bool) {
 	ops := claimsReadOps()
 	// (1) claims-sets of the C01 generator (valid and invalid, nil/empty containers, nil components …)
 	eachClaimsCase(rng, false, nRandom, func(class string, d ClaimsDesc, ndev int) {
-		if hasNilComp(&d) && rng.Chance(80) {
+		if hasNilComp(&d) && rng.Chance(60) && !strings.Contains(class, "/single/") {
 			return
 		}
 		c := d.Build()
